@@ -127,7 +127,8 @@ def run_layouts(out, rng, n):
         mods = {f"{d}/{fn}": {"prefixed": ["task_f"], "decorated": [], "tag": f"L{i}"}
                 for i, (d, fn) in enumerate([("src", "task_m.py"), ("src_extra", "task_m.py"), ("src_extra", "task_n.py"), ("srcx", "task_m.py"), ("src/inner", "task_n.py")])}
         return {"modules": mods, "inits": [], "paths": paths, "pkgs": []}
-    cases[2:2] = [sib(["src", "src_extra"]), sib(["src_extra", "src"]), sib(["src", "src_extra/task_n.py"]), sib(["srcx", "src", "src/inner"]), sib(["src/inner", "src", "src"])]
+    cases[2:2] = [sib(["src", "src_extra"]), sib(["src_extra", "src"]), sib(["src", "src_extra/task_n.py"]), sib(["srcx", "src", "src/inner"]), sib(["src/inner", "src", "src"]),
+                  sib(["src", "src/task_m.py"]), sib(["src/task_m.py", "src", "src/task_m.py"])]
     chunks = [cases[i::JOBS] for i in range(JOBS)]
     with ThreadPoolExecutor(max_workers=JOBS) as ex:
         res = list(ex.map(lambda ch: run_impl_worker("impl_collect.py", ch, timeout=3000) if ch else [], chunks))
@@ -186,6 +187,14 @@ def run(out, tier, seed, proof):
         {"fname": "foo", "name": None, "id": None, "params": [], "_txt": []}]}}, "paths": ["."]})
     cases.append({"modules": {"task_mod.py": {"prefixed": ["task_x"], "tag": "m0", "decorated": [
         {"fname": "f", "name": "task_x", "id": None, "params": [], "_txt": []}]}}, "paths": ["."]})
+    # repetitions without parameters: an explicit id that equals the position-based id of a later (or earlier) one
+    for ids in (["1", None, None], [None, None, "0"], [None, "2", None], ["2", "1", None]):
+        cases.append({"modules": {"task_mod.py": {"prefixed": [], "tag": "m0", "decorated": [
+            {"fname": "foo", "name": None, "id": i_, "params": [], "_txt": []} for i_ in ids]}}, "paths": ["."]})
+    # a task file reached twice: through its directory and given explicitly, or given twice
+    for pths in ([".", "task_mod.py"], ["task_mod.py", "."], ["task_mod.py", "task_mod.py"]):
+        cases.append({"modules": {"task_mod.py": {"prefixed": ["task_a", "task_b"], "tag": "m0", "decorated": [
+            {"fname": "foo", "name": None, "id": None, "params": [], "_txt": []}]}}, "paths": pths})
     chunks = [cases[i::JOBS] for i in range(JOBS)]
     with ThreadPoolExecutor(max_workers=JOBS) as ex:
         res = list(ex.map(lambda ch: run_impl_worker("impl_collect.py", ch, timeout=3000) if ch else [], chunks))
